@@ -152,6 +152,57 @@ func c04Replay(i int, raw json.RawMessage) Result {
 	return Result{OK: true, Key: key}
 }
 
+// c05CondReplay (C05): the expression as the condition of an if and of an else-if; exactly one branch renders, the one
+// the specification's value of the expression selects (anything but false, 0, "" is truthy), and only the operands
+// the specification evaluates are evaluated
+func c05CondReplay(i int, raw json.RawMessage) Result {
+	var v c04Vec
+	if err := json.Unmarshal(raw, &v); err != nil {
+		return Result{Detail: "bad vector: " + err.Error()}
+	}
+	if c04Set == nil {
+		c04Init()
+	}
+	key := v.Shape + "|" + strings.Join(v.Ops, ",") + "|" + strings.Join(v.Leaves, ",")
+	truthy := true
+	switch v.V.T {
+	case "int", "float", "bool":
+		truthy = v.V.N != 0
+	case "str":
+		truthy = v.V.S != ""
+	}
+	forms := c04Forms(v.Toks, v.Full)
+	for _, fname := range []string{"spaced", "keywords"} {
+		for _, shape := range []string{"if", "elseif"} {
+			src := "[{{ if " + forms[fname] + " }}T{{ else }}F{{ end }}]"
+			if shape == "elseif" {
+				src = "[{{ if false }}X{{ else if " + forms[fname] + " }}T{{ else if true }}F{{ else }}Y{{ end }}]"
+			}
+			want := map[bool]string{true: "[T]", false: "[F]"}[truthy]
+			sig := map[string]interface{}{"kind": "cond", "form": fname, "in": shape, "shape": v.Shape, "ops": strings.Join(v.Ops, " ")}
+			t, err := c04Set.Parse("/c.jet", src)
+			if err != nil {
+				sig["kind"] = "cond-parse"
+				return Result{Sig: sig, Key: key, Observed: err.Error(), Detail: fmt.Sprintf("%s does not parse: %v", src, err)}
+			}
+			c04Log = nil
+			var b bytes.Buffer
+			err = safeExecute(t, &b, nil, struct{ Seven int }{7})
+			if err != nil || b.String() != want {
+				return Result{Sig: sig, Key: key, Observed: b.String(), Expected: want,
+					Detail: fmt.Sprintf("%s rendered %q (err %v); the condition's value is %+v, so %s", src, b.String(), err, v.V, want)}
+			}
+			if strings.Join(c04Log, ",") != strings.Join(v.Log, ",") {
+				sig["kind"] = "cond-evalorder"
+				return Result{Sig: sig, Key: key, Observed: c04Log, Expected: v.Log,
+					Detail: fmt.Sprintf("%s: operands evaluated %v, spec %v", src, c04Log, v.Log)}
+			}
+		}
+	}
+	return Result{OK: true, Key: key}
+}
+
 func init() {
+	commands["replay-C05cond"] = func(a []string) int { return replayLoop(a[0], a[1], c05CondReplay) }
 	commands["replay-C04"] = func(a []string) int { return replayLoop(a[0], a[1], c04Replay) }
 }
